@@ -164,9 +164,18 @@ func scaleRecord(out io.Writer, args []string) error {
 				}
 			}
 		}
-		// clamp law on fresh copies of the same domain
-		for k := 0; k < 6; k++ {
+		// clamp law on fresh copies of the same domain: random points, and points strictly inside the domain but within
+		// 1e-11 .. 1e-15 of its width from an end
+		for k := 0; k < 12; k++ {
 			x := point()
+			if k >= 6 {
+				d := []float64{1e-11, 1e-13, 1e-15, 1 - 1e-11, 1 - 1e-13, 3e-12}[k-6]
+				if kind == "lin" {
+					x = mn + (mx-mn)*d
+				} else {
+					x = math.Copysign(math.Exp(math.Log(math.Abs(mn))+(math.Log(math.Abs(mx))-math.Log(math.Abs(mn)))*d), mn)
+				}
+			}
 			var yu, yc float64
 			switch t := s.(type) {
 			case *scale.Linear:
